@@ -155,6 +155,19 @@ CLAIMED = {
              "UnifiedSpec and the clauses, the verdict comes from the executed round trip. Known finding "
              "KF-C07-alternate-id excluded by predicate.",
         ref="3 C07"),
+    "C11": dict(
+        text="(1) MC_Ser documents are rendered by a specification-driven generator (harness/foreign.py, sharing no code "
+             "with the library's writers) under 17 spelling flag sets enumerated by TLC (values wrapped in arrays, record "
+             "arrays, every int/bool/string/float/qualified-name spelling, bundle-level prefix blocks, reversed keys, "
+             "subtype XML elements, comments), loaded, re-written, re-loaded and cross-converted; (2) the 398 JSON + 45 "
+             "XML ProvToolbox corpus files with single-point mutations (reorder keys, wrap value, record array, rename "
+             "prefix, copy prefix block into bundles) enumerated by MC_Corpus; (C) TLC judges stability, cross-format "
+             "equality, faithfulness (nothing dropped or invented, exact content for normalised spellings), preservation "
+             "under mutation and the error class of refused texts.",
+        note=TRUST + ". The generator and the mutations are Python; TLC enumerates flag sets / (file, mutation) pairs and "
+             "judges projections. Quick samples one mutation per corpus file. Known finding KF-C11-multimember excluded "
+             "by predicate.",
+        ref="3 C11"),
 }
 for _c in CLAIMED.values():
     _c.setdefault("technique", TECH)
